@@ -80,6 +80,11 @@ func (fs *Filesystem) MkdirAll(path string, perm ros.FileMode) error {
 }
 
 func (fs *Filesystem) MkdirTemp(dir, pattern string) (string, error) {
+	if dir == "" && fs.base != "" {
+		// The default directory for temporary files of a rooted filesystem is
+		// its own root, not the temporary directory of the host.
+		dir = "."
+	}
 	if dir != "" {
 		var err error
 		dir, err = fs.resolvePath(dir, "mkdir")
